@@ -457,7 +457,7 @@ def r8_lenses(ctx):
     fn = F.method(L + "PopulationSizeLens", "map", "mahf::lens::LensMap")
     bad = []
     for sizes in ((2,), (3, 1), (0, 2), (1, 0)):
-        it = install(Interp(fn.body, chain(StackModel(sf), coll_oracle, std_oracle), [Sym("self"), Sym("populations", {sf: Sym("stack")})], facts=F, inline=lambda k: k.startswith(POP + "::"), max_visits=8))
+        it = install(Interp(fn.body, chain(StackModel(sf), coll_oracle, std_oracle), [Sym("self"), Sym("populations", {sf: Sym("stack")})], facts=F, inline=lambda k: k.startswith(POP + "::") or statemodel.module_helper(k), max_visits=8))
         it.init_state = {"stack": tuple(Vec("p%d" % i) for i in range(len(sizes))), "next_vec": 0, "heap": {"p%d" % i: tuple(Sym("i%d_%d" % (i, j)) for j in range(k)) for i, k in enumerate(sizes)}}
         n += 1
         for p in it.run():
